@@ -106,6 +106,14 @@ func c15run(steps []c15step) (sig, what, outcome string) {
 		case "failedMessage":
 			run.Failed = true
 			return fxOutcome{Conversion: `{"failedMessage": "cannot convert: field x is gone"}`}
+		case "failedMessage+objects":
+			// the hook reports a failure and still returns a full-length list
+			run.Failed = true
+			var m map[string]any
+			_ = json.Unmarshal([]byte(convert(false, 0)), &m)
+			m["failedMessage"] = "cannot convert: field x is gone"
+			b, _ := json.Marshal(m)
+			return fxOutcome{Conversion: string(b)}
 		case "wrong-count":
 			run.Failed = true
 			return fxOutcome{Conversion: convert(false, 1)}
@@ -206,7 +214,7 @@ func c15run(steps []c15step) (sig, what, outcome string) {
 	if success {
 		return "C15b success-after-failed-step kind=" + steps[firstFail].kind, desc, ""
 	}
-	if steps[firstFail].kind == "failedMessage" && !strings.Contains(ans.Response.Result.Message, "cannot convert: field x is gone") {
+	if strings.HasPrefix(steps[firstFail].kind, "failedMessage") && !strings.Contains(ans.Response.Result.Message, "cannot convert: field x is gone") {
 		return "C15b hook-message-not-relayed", desc, ""
 	}
 	return "", "", "Failed:" + steps[firstFail].kind
@@ -215,7 +223,7 @@ func c15run(steps []c15step) (sig, what, outcome string) {
 func TestVerifC15b(t *testing.T) {
 	r := vres.New("c15b")
 	defer r.Finish()
-	kinds := []string{"ok", "exit1", "empty", "failedMessage", "wrong-count"}
+	kinds := []string{"ok", "exit1", "empty", "failedMessage", "failedMessage+objects", "wrong-count"}
 	r.Bound("step_outcomes", kinds)
 	var ord int64
 	for _, k1 := range kinds {
